@@ -6,7 +6,7 @@
    is refuted by C10_old_*_refuted. *)
 From Coq Require Import List Arith NArith Bool.
 Import ListNotations.
-From SygmaV Require Import Model.C10 Proofs.C10 Proofs.C10_Conc Proofs.C10_Stress.
+From SygmaV Require Import Model.C10 Proofs.C10 Proofs.C10_Conc Proofs.C10_Stress Proofs.C10_Batch.
 
 (* no_fatal_unlock + free_at_end (+ never blocks on itself): every process kind x every outcome *)
 Theorem C10_no_fatal_unlock_free_at_end : forall k o, feasible k o = true ->
@@ -351,4 +351,59 @@ Example C10_stress_nonvacuous :
   stress_ok 2 2 [2; 2]%N 4 1 = true /\ stress_ok 2 2 [2; 2]%N 3 1 = false /\ stress_ok 2 2 [2; 1]%N 3 3 = false /\
   session_events New FrostKeygen CancelledBeforeEntry = [L; U] /\
   session_events New EcdsaKeygen CancelledBeforeEntry = [].
+Proof. vm_compute. repeat split. Qed.
+
+(* ------------------------------------------------------------------------------------------ *)
+(* Sessions with a BATCH of processes (Execute is handed a list: one signing process per transaction
+   input; a key refresh that reshares the ECDSA and the FROST key in one session), each process on its
+   own store.  For ANY number of processes of ANY kinds and every outcome that is feasible for all of
+   them: Execute's cleanup (and its refusal of a duplicate) stops every process of the list exactly once,
+   so every process's ledger is the ledger of a lone session of its kind - covered by every theorem
+   above - and the judge of the batch cases accepts the model. *)
+Theorem C10_batch_ok_model : forall ks o, batch_feasible ks o = true ->
+  batch_ledgers PerIteration ks o = map (fun k => session_events New k o) ks /\
+  batch_ledgers_ok ks (batch_ledgers PerIteration ks o) = true.
+Proof. exact (fun ks o H => conj (batch_ledgers_per_iteration ks o) (batch_ok_model ks o H)). Qed.
+Print Assumptions C10_batch_ok_model.
+
+(* what the judge of the batch cases means: one ledger per process, each one free at the end, without a
+   fatal unlock, balanced and guarded (C10_session_ok_sound) *)
+Theorem C10_batch_ok_sound : forall ks ls, batch_ledgers_ok ks ls = true ->
+  length ls = length ks /\
+  forall i, i < length ks ->
+    mrun false (nth i ls []) = MOk false /\ count is_L (nth i ls []) = count is_U (nth i ls []) /\
+    guarded (nth i ks EcdsaSigning) false false (nth i ls []) = true.
+Proof.
+  exact (fun ks ls H => conj (proj1 (batch_ok_sound ks ls H))
+           (fun i Hi => session_ok_sound _ _ (proj2 (batch_ok_sound ks ls H) i Hi))).
+Qed.
+Print Assumptions C10_batch_ok_sound.
+
+(* A cleanup that defers one closure per process capturing the range variable (go 1.21: one variable
+   for the whole loop) stops the LAST process once per process and the others never - refuted for every
+   batch of two or more: a constructor-locking process (FROST keygen, ECDSA / FROST resharing) that is
+   not the last one keeps its lock; a constructor-locking last process unlocks an unlocked mutex. *)
+Theorem C10_batch_shared_stop_refuted : forall ks o, batch_feasible ks o = true ->
+  (forall i, i < length ks - 1 -> constructor_locks (nth i ks EcdsaSigning) = true ->
+     batch_ledgers_ok ks (batch_ledgers SharedVariable ks o) = false) /\
+  (2 <= length ks -> constructor_locks (nth (length ks - 1) ks EcdsaSigning) = true ->
+     batch_ledgers_ok ks (batch_ledgers SharedVariable ks o) = false /\
+     mrun false (nth (length ks - 1) (batch_ledgers SharedVariable ks o) []) = MFatal).
+Proof.
+  exact (fun ks o H => conj (fun i Hi Hc => shared_stop_leaks ks o i H Hi Hc)
+                            (fun Hn Hc => shared_stop_fatal ks o H Hn Hc)).
+Qed.
+Print Assumptions C10_batch_shared_stop_refuted.
+
+(* Non-vacuity: an ECDSA and a FROST resharing in one session whose coordinator stays silent. *)
+Example C10_batch_nonvacuous :
+  batch_feasible [EcdsaResharing; FrostResharing] NeverSilent = true /\
+  batch_ledgers PerIteration [EcdsaResharing; FrostResharing] NeverSilent = [[L; Get; U]; [L; Get; U]] /\
+  batch_ledgers SharedVariable [EcdsaResharing; FrostResharing] NeverSilent = [[L; Get]; [L; Get; U; U]] /\
+  batch_ledgers_ok [EcdsaResharing; FrostResharing] [[L; Get]; [L; Get; U; U]] = false /\
+  batch_ledgers SharedVariable [FrostKeygen; FrostSigning; EcdsaSigning] Refused = [[L]; [L; Get; U]; [L; Get; U]] /\
+  batch_ledgers PerIteration [FrostSigning; FrostSigning] Rerun =
+    [[L; Get; U; RunBegin; RunEnd; RunBegin; RunEnd]; [L; Get; U; RunBegin; RunEnd; RunBegin; RunEnd]] /\
+  batch_ledgers_ok [EcdsaKeygen; FrostKeygen] [[]; [L; U]] = true /\
+  batch_ledgers_ok [EcdsaKeygen; FrostKeygen] [[]] = false.
 Proof. vm_compute. repeat split. Qed.
